@@ -9,6 +9,7 @@ use crate::spec::{self, *};
 use crate::{ensure, must};
 use bc_components::{EncapsulationScheme, SignatureScheme};
 use bc_envelope::prelude::*;
+#[allow(unused_imports)]
 use dcbor::prelude::*;
 
 fn bytes(e: &Envelope) -> Vec<u8> { e.tagged_cbor().to_cbor_data() }
@@ -125,6 +126,7 @@ fn sequences_with(len: usize, reduced: bool) -> R {
     let st = starts();
     // length-3 sequences in the quick tier start from the 7 node-shaped envelopes (the others are covered at length 2)
     let s = if reduced && len == 3 && !rt::thorough() { &st[[4usize, 5, 6, 7, 8, 9, 12][choice(7)]] } else { &st[choice(st.len())] };
+    if let Ok(f) = std::env::var("SYMORD_DEBUG_START") { rt::assume(s.show() == st[f.parse::<usize>().unwrap()].show())?; }
     let mut e = build(s);
     if let Err(m) = well_formed(&e) { return rt::viol("freshly built envelope not canonical", m); }
     let mut trace = vec![s.show()];
